@@ -99,7 +99,7 @@ func (d *IPv6Defragmenter) DefragIPv6(ipv6 *layers.IPv6, fg *layers.IPv6Fragment
 	if !ok {
 		// remeber the first coming
 		d.container[fg.Identification] = in
-		return nil
+		f = in
 	}
 
 	// insert into list and make the id map to the first one
